@@ -18,14 +18,27 @@
 (*                                                                            *)
 (* The "state machine" is the staged choice of a test vector (BUILDING.md):   *)
 (* ChooseConfig -> ChooseParams -> ChooseInput -> ChooseMember (emits).       *)
+(*                                                                            *)
+(* Two CLASSES of parameter states:                                           *)
+(*   "generic"  members differ in every layer, outputs are O(1);              *)
+(*   "agree"    members (nearly) agree on predictions FAR FROM ZERO (a large   *)
+(*              common output bias, zero / tiny output weights or identical    *)
+(*              copies of one member - what a converged ensemble looks like)   *)
+(*              with the raw log-variance at / near the lower soft bound, and  *)
+(*              the degenerate ensemble of ONE member.  Here the aggregate     *)
+(*              variance is tiny compared with the squared aggregate mean, and *)
+(*              it must not depend on the common offset (AggregateOffsetFree). *)
 EXTENDS Integers, Sequences, FiniteSets, TLC, Json, Exact
 
 CONSTANTS EMIT,   \* TRUE: print one EMIT record per completed test vector
-          Dev,    \* "none" | named deviation (canaries): "outer_var", "vector_row0", "no_epistemic"
-          Es,     \* ensemble sizes explored
+          Dev,    \* "none" | named deviation (canaries): "outer_var", "vector_row0", "no_epistemic", "uncentred_epistemic"
+          Es,     \* ensemble sizes explored (class "generic": >= 2, the members differ)
           Os,     \* numbers of outputs explored
           NPat,   \* parameter patterns 1..NPat
-          NXPat   \* input patterns 1..NXPat
+          NXPat,  \* input patterns 1..NXPat
+          ACfgs,  \* class "agree": configurations coded as decimal digits EO (E >= 1: includes the ensemble of one member)
+          NAgree, \* class "agree": parameter patterns 1..NAgree
+          ANs     \* class "agree": batch sizes explored
 
 VARIABLES stage, cfg, par, inp, mem
 vars == <<stage, cfg, par, inp, mem>>
@@ -52,7 +65,34 @@ Params(E, O, p) ==
     bm |-> [i \in 1..E |-> [k \in 1..O |-> Pick(i * 2 + k * 3 + p + 1)]],
     lb |-> [i \in 1..E |-> [k \in 1..O |-> Raw[((i * 2 + k + p) % Len(Raw)) + 1]]],
     rmin |-> [k \in 1..O |-> RawMin[((k + p) % Len(RawMin)) + 1]],
-    rmax |-> [k \in 1..O |-> RawMax[((k * 2 + p) % Len(RawMax)) + 1]] ]
+    rmax |-> [k \in 1..O |-> RawMax[((k * 2 + p) % Len(RawMax)) + 1]],
+    off  |-> [k \in 1..O |-> Zero] ]     \* common output offset of the members: none
+
+(* class "agree": every member's mean head is  off[k] + (zero | tiny | shared) weights . hidden.        *)
+(*   a % 3 = 1  "equal"   zero output weights: every member predicts exactly off[k]                     *)
+(*   a % 3 = 2  "near"    output weights of the order 2^-8: the members differ in the 3rd..5th digit    *)
+(*   a % 3 = 0  "copies"  every member is a copy of one member with ordinary output weights             *)
+(* offsets >= 50 in magnitude, raw log-variances saturating low (odd a) or saturating low / -8 (even a) *)
+OffLat == << I(50), I(-200), I(64), I(100) >>
+TinyLat == << Zero, Q(1, 256), Q(-1, 256), Q(1, 128) >>
+TinyPick(h) == TinyLat[(h % Len(TinyLat)) + 1]
+AgreeKind(a) == IF a % 3 = 1 THEN "equal" ELSE IF a % 3 = 2 THEN "near" ELSE "copies"
+AgreeParams(E, O, a) ==
+  LET G   == Params(E, O, a)
+      knd == AgreeKind(a)
+      off == [k \in 1..O |-> OffLat[((k + a) % Len(OffLat)) + 1]]
+  IN [ W1 |-> IF knd = "copies" THEN [i \in 1..E |-> G.W1[1]] ELSE G.W1,
+       b1 |-> IF knd = "copies" THEN [i \in 1..E |-> G.b1[1]] ELSE G.b1,
+       Wm |-> [i \in 1..E |-> [j \in 1..Hd |-> [k \in 1..O |->
+                 IF knd = "equal" THEN Zero
+                 ELSE IF knd = "near" THEN TinyPick(i * 5 + j * 3 + k + a * 2)
+                 ELSE G.Wm[1][j][k]]]],
+       bm |-> [i \in 1..E |-> off],
+       lb |-> [i \in 1..E |-> [k \in 1..O |->
+                 IF a % 2 = 1 \/ knd = "copies" THEN -10000
+                 ELSE IF (i + k) % 2 = 0 THEN -10000 ELSE -8]],
+       rmin |-> G.rmin, rmax |-> G.rmax,
+       off  |-> off ]
 
 Row(xp, r, s) == [f \in 1..F |-> Pick(xp * 3 + r * 5 + f * 2 + s * 7)]
 
@@ -65,6 +105,10 @@ SSumTo(s, k) == IF k = 0 THEN Zero ELSE SAdd(SSumTo(s, k - 1), s[k])
 SSum(s)  == SSumTo(s, Len(s))
 SMean(s) == QDiv(SSum(s), I(Len(s)))
 SLe(a, b) == SSub(b, a)[1] >= 0
+SMax(a, b) == IF SLe(a, b) THEN b ELSE a
+RECURSIVE SMaxTo(_, _)
+SMaxTo(s, k) == IF k = 1 THEN s[1] ELSE SMax(SMaxTo(s, k - 1), s[k])
+SMaxSeq(s) == SMaxTo(s, Len(s))
 
 (* ------------------------------------------------------ GaussianMLP.__call__ *)
 Relu(q) == QMax(Zero, q)
@@ -120,7 +164,10 @@ Member(J, i, kind, O) ==
 QVarPop(s) == LET m == SMean(s) IN SMean([t \in 1..Len(s) |-> QSq(SSub(s[t], m))])
 (* means, vs : Seq over members of rationals (one row, one output) *)
 AggMean(means) == SMean(means)
-AggEpistemic(means) == IF Dev = "no_epistemic" THEN Zero ELSE QVarPop(means)
+(* deviation "uncentred_epistemic": the second moment of the member means instead of their variance *)
+AggEpistemic(means) == IF Dev = "no_epistemic" THEN Zero
+                       ELSE IF Dev = "uncentred_epistemic" THEN SMean([t \in 1..Len(means) |-> QSq(means[t])])
+                       ELSE QVarPop(means)
 AggVar(means, vs) == SAdd(SMean(vs), AggEpistemic(means))
 (* moments of the uniform mixture of the member Gaussians (independent formulation) *)
 MixtureVar(means, vs) ==
@@ -135,6 +182,12 @@ Aggregate(J, E, O) ==
   [ mean  |-> [r \in 1..n |-> [k \in 1..O |-> AggMean([i \in 1..E |-> J.mean[i][r][k]])]],
     (* var[r][k] = vcoef * SUM_i V[i][k] + epi[r][k], V[i][k] = exp(logvar of member i, output k) *)
     epi   |-> [r \in 1..n |-> [k \in 1..O |-> AggEpistemic([i \in 1..E |-> J.mean[i][r][k]])]],
+    (* conditioning of the two-term formula (for the counted rounding bound of the binding): the largest  *)
+    (* member mean in magnitude and the largest distance of a member mean from the aggregate mean         *)
+    maxabs |-> [r \in 1..n |-> [k \in 1..O |-> SMaxSeq([i \in 1..E |-> QAbs(J.mean[i][r][k])])]],
+    dev   |-> [r \in 1..n |-> [k \in 1..O |->
+                 LET ms == [i \in 1..E |-> J.mean[i][r][k]]
+                 IN SMaxSeq([i \in 1..E |-> QAbs(SSub(ms[i], SMean(ms)))])]],
     vcoef |-> Q(1, E),
     shape |-> << n, O >> ]
 
@@ -142,18 +195,22 @@ Aggregate(J, E, O) ==
 Init == stage = 0 /\ cfg = << >> /\ par = << >> /\ inp = << >> /\ mem = -1
 
 ChooseConfig == /\ stage = 0
-                /\ \E e \in Es, o \in Os : cfg' = [E |-> e, O |-> o]
+                /\ \/ \E e \in Es, o \in Os : cfg' = [E |-> e, O |-> o, cls |-> "generic"]
+                   \/ \E c \in ACfgs : cfg' = [E |-> c \div 10, O |-> c % 10, cls |-> "agree"]
                 /\ stage' = 1 /\ UNCHANGED <<par, inp, mem>>
 
+(* agree patterns are numbered 100 + a *)
 ChooseParams == /\ stage = 1
-                /\ \E p \in 1..NPat : par' = [p |-> p] @@ Params(cfg.E, cfg.O, p)
+                /\ IF cfg.cls = "generic"
+                   THEN \E p \in 1..NPat : par' = [p |-> p] @@ Params(cfg.E, cfg.O, p)
+                   ELSE \E a \in 1..NAgree : par' = [p |-> 100 + a] @@ AgreeParams(cfg.E, cfg.O, a)
                 /\ stage' = 2 /\ UNCHANGED <<cfg, inp, mem>>
 
 Kinds == {"vector", "batch", "permember"}
 ChooseInput ==
   /\ stage = 2
   /\ \E kind \in Kinds, xp \in 1..NXPat :
-       \E n \in (IF kind = "vector" THEN {1} ELSE {1, 2, 3}) :
+       \E n \in (IF kind = "vector" THEN {1} ELSE IF cfg.cls = "agree" THEN ANs ELSE {1, 2, 3}) :
          inp' = [kind |-> kind, n |-> n, xp |-> xp,
                  x |-> IF kind = "permember"
                        THEN [i \in 1..cfg.E |-> [r \in 1..n |-> Row(xp, r, i)]]
@@ -179,7 +236,8 @@ Expected(i) ==
        lo_range |-> LoRange, hi_range |-> HiRange,
        lo_order |-> [k \in 1..cfg.O |-> OrderOf(RawMin, par.rmin[k])],
        hi_order |-> [k \in 1..cfg.O |-> OrderOf(RawMax, par.rmax[k])],
-       agg_mean |-> A.mean, agg_epi |-> A.epi, agg_vcoef |-> A.vcoef, agg_shape |-> A.shape ]
+       agg_mean |-> A.mean, agg_epi |-> A.epi, agg_vcoef |-> A.vcoef, agg_shape |-> A.shape,
+       agg_maxabs |-> A.maxabs, agg_dev |-> A.dev ]
 
 Emit(i) == EMIT => PrintT(<<"EMIT", ToJson([cfg |-> cfg, par |-> par, inp |-> inp, member |-> i, exp |-> Expected(i)])>>)
 
@@ -222,7 +280,7 @@ PerMemberGeneralisesJoint ==
 
 (* law of total variance: mean of variances + variance of means = variance of the mixture *)
 AggregateIsMixtureMoments ==
-  Done /\ inp.kind # "permember" =>
+  Done /\ inp.kind # "permember" /\ cfg.cls = "generic" =>
     LET J == TheJoint IN
     \A r \in 1..J.shape[2], k \in 1..cfg.O :
       LET ms == [i \in 1..cfg.E |-> J.mean[i][r][k]]
@@ -230,6 +288,31 @@ AggregateIsMixtureMoments ==
       IN /\ AggVar(ms, vs) = MixtureVar(ms, vs)      \* canonical forms
          /\ SLe(SMean(vs), AggVar(ms, vs))
 
-(* vacuity guards: members really differ, and outputs have different raw log-variances *)
-MembersDiffer == Done => \E i, j \in 1..cfg.E : par.bm[i] # par.bm[j] \/ par.Wm[i] # par.Wm[j]
+(* the aggregate variance does not depend on a common offset of the member means: it is the same for the *)
+(* means measured from the pattern's offset, where it again is the variance of the mixture.  (On the class *)
+(* "generic" the offset is zero and this is AggregateIsMixtureMoments; on "agree" the squares of the        *)
+(* uncentred means are never formed - they are what a one-pass second-moment formula cancels.)              *)
+Shifted(ms, c) == [t \in 1..Len(ms) |-> SSub(ms[t], c)]
+AggregateOffsetFree ==
+  Done /\ inp.kind # "permember" =>
+    LET J == TheJoint IN
+    \A r \in 1..J.shape[2], k \in 1..cfg.O :
+      LET ms == [i \in 1..cfg.E |-> J.mean[i][r][k]]
+          vs == [i \in 1..cfg.E |-> VarAbs(par.lb[i][k])]
+          cs == Shifted(ms, par.off[k])
+      IN /\ AggVar(ms, vs) = AggVar(cs, vs)
+         /\ AggVar(ms, vs) = MixtureVar(cs, vs)
+         /\ SLe(SMean(vs), AggVar(ms, vs))
+         /\ (cfg.E = 1 => AggVar(ms, vs) = vs[1])      \* one member: the aggregate is that member
+
+(* vacuity guards: generic members really differ; agreeing members are far from zero (>= 32) and agree to 2^-10 of it *)
+MembersDiffer == Done /\ cfg.cls = "generic" => \E i, j \in 1..cfg.E : par.bm[i] # par.bm[j] \/ par.Wm[i] # par.Wm[j]
+MembersAgreeFarFromZero ==
+  Done /\ cfg.cls = "agree" /\ inp.kind # "permember" =>
+    LET A == Aggregate(TheJoint, cfg.E, cfg.O) IN
+    \A r \in 1..A.shape[1], k \in 1..cfg.O :
+      /\ SLe(I(32), QAbs(A.mean[r][k]))
+      /\ SLe(QMul(I(1024), A.dev[r][k]), QAbs(A.mean[r][k]))
+      /\ \A i \in 1..cfg.E : par.lb[i][k] <= -8
+      /\ \E i \in 1..cfg.E, k2 \in 1..cfg.O : par.lb[i][k2] = -10000
 =============================================================================
